@@ -213,7 +213,7 @@ CHECKS = {
     },
     'C06': {
         'families': [['c06:tasks', 1.0], ['c06:shards', 1.0]],
-        'runs': {'quick': 12000, 'thorough': 600000},
+        'runs': {'quick': 8000, 'thorough': 600000},
         'budget': {'quick': 115, 'thorough': 1500},
         'level': 'fault_enumeration',
         'rule': ('each evaluation runs as_completed (1-6 tasks) or sharded_pipelines_as_iterator (1-6 shards, exact '
